@@ -123,3 +123,51 @@ func H_cmp_numeric_strings() {
 	cmpAll(sx.Str(a), sx.Str(b), false, a == b, false, false, "numeric-string-")
 	symx.Reach("end")
 }
+
+// H_cmp_literal (L4/L5, seed C03h): one operand is an integer LITERAL in the source, the
+// other a variable holding a symbolic int or float. The parser fuses `$var <op> IntLiteral`
+// into dedicated nodes (node/fused_assign.go), a different evaluation path from `$a op $b`;
+// every comparison operator in both operand orders must agree with the numeric reference.
+func H_cmp_literal() {
+	lits := []int{0, 3, -2}
+	L := lits[symx.Choose("lit", len(lits))]
+	ls := "3"
+	if L == 0 {
+		ls = "0"
+	} else if L == -2 {
+		ls = "-2"
+	}
+	var a data.Value
+	var lt, eq, gt bool
+	if symx.Choose("kind", 2) == 0 {
+		x := symx.Int("a")
+		a, lt, eq, gt = sx.Int(x), x < L, x == L, x > L
+	} else {
+		x := symx.Float64("f")
+		symx.Assume(x == x)
+		fl := float64(L)
+		a, lt, eq, gt = sx.Float(x), x < fl, x == fl, x > fl
+	}
+	want := map[string]bool{"==": eq, "!=": !eq, "<": lt, "<=": lt || eq, ">": gt, ">=": gt || eq}
+	flip := map[string]string{"==": "==", "!=": "!=", "<": ">", "<=": ">=", ">": "<", ">=": "<="}
+	for _, op := range []string{"==", "!=", "<", "<=", ">", ">="} {
+		for side := 0; side < 2; side++ {
+			expr := "$a " + op + " " + ls
+			if side == 1 {
+				expr = ls + " " + flip[op] + " $a"
+			}
+			o, threw, ok := eval(expr, a, sx.Int(0))
+			symx.Assert(ok && !threw && o.Kind == 'b', "literal-cmp-yields-bool")
+			if !ok || threw || o.Kind != 'b' {
+				return
+			}
+			symx.Assert(o.B == want[op], "literal-cmp-reference "+expr)
+		}
+	}
+	s, threw, ok := eval("$a <=> "+ls, a, sx.Int(0))
+	symx.Assert(ok && !threw && s.Kind == 'i', "literal-spaceship-yields-int")
+	if ok && !threw && s.Kind == 'i' {
+		symx.Assert((s.I == -1) == lt && (s.I == 1) == gt, "literal-spaceship-reference")
+	}
+	symx.Reach("end")
+}
